@@ -57,6 +57,9 @@ ListProgs ==
              \o Ix(f, as) : f \in {"RND", "INT", "ABS"}, as \in [1..1 -> {TkN(NInt(2)), TkS("stringliteral", B("A"))}] \cup [1..2 -> {TkN(NInt(2)), TkS("stringliteral", B("A"))}]}
     \cup {<<Tk("def"), Sym(f), Tk("leftparen"), Sym("A$"), Tk("rightparen"), Tk("equals"), TkN(NInt(1)), Tk("colon"), Sym("X"), Tk("equals")>>
              \o Ix(f, as) : f \in {"INT", "ABS"}, as \in [1..1 -> {TkN(NInt(2)), TkS("stringliteral", B("A"))}]}
+    \* what follows a STOP on its line is reached by CONT
+    \cup {<<Tk("stop"), Tk("colon"), Tk("print"), a, Tk("plus"), b>> : a \in T4, b \in T4}
+    \cup {<<Tk("print"), TkN(NInt(1)), Tk("colon"), Tk("stop"), Tk("colon"), Sym("X"), Tk("equals"), a>> : a \in T4}
     \cup {<<Tk("for"), Sym("I"), Tk("equals"), a, Tk("to"), b, Tk("step"), c, Tk("colon"), Tk("next"), Sym("I")>> : a \in T4, b \in T4, c \in T4}
     \cup {<<Tk("if"), a, Tk("then"), Tk("print"), b, Tk("else"), Tk("print")>> \o Ix("Q", as) : a \in T4, b \in T4, as \in Args(2)}
 
@@ -82,6 +85,7 @@ RunFrom(r, fuel, outs) ==
     IN  IF Unknown(r) THEN [ok |-> FALSE, kind |-> "unknown", out |-> o, line |-> <<>>]
         ELSE IF ~r.res.ok THEN [ok |-> FALSE, kind |-> r.res.kind, out |-> o, line |-> IF r.res.hl THEN r.res.line ELSE <<>>]
         ELSE IF r.I.mode = "running" /\ fuel > 0 THEN RunFrom(Step(r.I, CContinue), fuel - 1, o)
+        ELSE IF r.I.mode = "idle" /\ r.I.bp.some /\ fuel > 0 THEN RunFrom(Step(r.I, CSubmit(B("CONT"))), fuel - 1, o)      \* a STOP is resumed with CONT
         ELSE IF r.I.mode = "awaiting" /\ fuel > 0 THEN RunFrom(Step(r.I, CProvide(B("1"))), fuel - 1, o)       \* every INPUT is answered 1
         ELSE [ok |-> r.I.mode = "idle", kind |-> IF r.I.mode = "idle" THEN "" ELSE "unknown", out |-> o, line |-> <<>>]
 RunOn(r, fuel) == RunFrom(r, fuel, <<>>)
